@@ -838,6 +838,8 @@ class Gen:
         self.parent = sample_parent if in_sub else sc["trigger"]
         self.steps = []
         self.needs = []       # (sub only) parent keys that must hold distinct object names
+        # per-workflow error budget: scales the probability of failing expressions / failing Logic
+        self.err = sc.get("err_rate", 1.0)
 
     def sim(self):
         return simulate(self.sc, self.steps, self.parent)["outcomes"]
@@ -867,7 +869,7 @@ class Gen:
         if not cands:
             return None
         e = copy.deepcopy(rng.choice(cands)[0])
-        if rng.random() < 0.06:
+        if rng.random() < 0.06 * self.err:
             e[-1] = e[-1] + ["nope"]        # a path that does not exist: evaluation error
         return e
 
@@ -913,7 +915,7 @@ class Gen:
                 put("sel", C(rng.choice(CASES + CASES + ["zzz", 7, True])))
             elif r < 0.8:
                 on = self.ref_expr(done, want="str") or C("one")
-            elif r < 0.95:
+            elif r < 1 - 0.05 * self.err:
                 on = C(rng.choice(CASES + ["zzz"]))
             else:
                 on = ["E"]
@@ -943,7 +945,7 @@ class Gen:
                 if len(need_keys) == 1 and not self.in_sub:
                     fe_key, items = need_keys[0], [f"obj-{label}-{i}" for i in range(n)]
             elif "bycls" in tnames and r < 0.75:
-                heavy = rng.random() < 0.4
+                heavy = rng.random() < 0.4 * self.err
                 words = CLS_WORDS if heavy else ["ok", "ok", "ok", "skip", "depskip"]
                 fe_key, items = "cls", [rng.choice(words) for _ in range(n)]
             elif "bycls" not in tnames or True:
@@ -955,15 +957,15 @@ class Gen:
                     src = self.ref_expr(done, want="list") or src
                 elif r2 < 0.36:
                     src = C([])
-                elif r2 < 0.40:
+                elif r2 < 0.36 + 0.04 * self.err:
                     src = C(rng.choice([5, "x", {"a": 1}, None]))
-                elif r2 < 0.43:
+                elif r2 < 0.36 + 0.07 * self.err:
                     src = ["E"]
                 step["foreach"] = [src, fe_key]
                 used.add(fe_key)
         # ---- inputs the Logic needs
         if "bycls" in tnames and fe_key != "cls":
-            words = ["ok"] * 6 + CLS_WORDS
+            words = ["ok"] * 8 + ["skip", "depskip"] + (CLS_WORDS if rng.random() < self.err else [])
             put("cls", C(rng.choice(words)))
         if "res" in tnames and fe_key != "name":
             if self.in_sub:
@@ -975,6 +977,12 @@ class Gen:
         for k in need_keys:
             if k != fe_key:
                 put(k, C(f"obj-{label}-{k}"))
+        sample = {"sel": rng.choice(CASES), "a": rng.choice([1, 2]), "flag": rng.random() < 0.3, "lst": [1, "x"]}
+        for t in targets:
+            if t[0] == "sub":
+                for k in sc["subs"][t[1]].get("reads", []):
+                    if k in sample and k != fe_key and rng.random() < 1 - 0.15 * self.err:
+                        put(k, C(sample[k]))
         # ---- data inputs
         for _ in range(rng.choice([0, 0, 1, 1, 2, 3])):
             e = self.ref_expr(done) if (self.steps or rng.random() < 0.5) else None
@@ -982,7 +990,7 @@ class Gen:
                 put(rng.choice(KEYS), e)
         for _ in range(rng.choice([0, 0, 1, 2])):
             put(rng.choice(KEYS), C(rand_const(rng)))
-        if rng.random() < 0.03:
+        if rng.random() < 0.03 * self.err:
             put(rng.choice(KEYS), ["E"])
         if rng.random() < 0.08:
             inner = [x for x in [self.ref_expr(done), C(rand_scalar(rng))] if x is not None]
@@ -997,8 +1005,8 @@ class Gen:
                 step["skip"] = C(rng.random() < 0.4)
             elif r < 0.85:
                 step["skip"] = self.ref_expr(done, want="bool") or C(False)
-            elif r < 0.95:
-                step["skip"] = C(rng.choice([5, "x", None]))
+            elif r < 1 - 0.05 * self.err:
+                step["skip"] = C(rng.choice([5, "x", None])) if rng.random() < self.err else C(False)
             else:
                 step["skip"] = ["E"]
         # ---- condition, state
@@ -1020,7 +1028,22 @@ def _gen_sub(rng, sc, name, depth):
             prefix=f"{name.replace('-', '')}x")
     for _ in range(rng.choice([1, 1, 2, 3, 4])):
         g.add_step()
-    sc["subs"][name] = {"steps": g.steps, "needs": g.needs}     # registered afterwards: no self reference
+    reads = set()
+
+    def scan(v):
+        if isinstance(v, list):
+            if len(v) == 2 and v[0] == "P" and isinstance(v[1], list):
+                if v[1]:
+                    reads.add(v[1][0])
+                return
+            for x in v:
+                scan(x)
+        elif isinstance(v, dict):
+            for x in v.values():
+                scan(x)
+    scan(g.steps)
+    # registered afterwards: no self reference
+    sc["subs"][name] = {"steps": g.steps, "needs": g.needs, "reads": sorted(reads - set(g.needs))}
 
 
 def _break(rng, steps, how):
@@ -1064,7 +1087,8 @@ def all_object_names(sc):
 
 
 def rand_scenario(rng, nsteps=None, broken=None):
-    sc = {"name": "wf-main", "trigger": rand_trigger(rng), "existing": [], "subs": {}, "steps": [], "edit": None}
+    sc = {"name": "wf-main", "trigger": rand_trigger(rng), "existing": [], "subs": {}, "steps": [], "edit": None,
+          "err_rate": rng.choice([0.0, 0.0, 0.3, 1.0])}
     for i in range(rng.choice([0, 0, 1, 1, 2])):
         _gen_sub(rng, sc, f"sub-{i}", 1)
     g = Gen(rng, sc)
